@@ -72,7 +72,12 @@ def run_case(spec: dict[str, Any], sd: dict[str, Any], sweeps: list[list[int]]) 
 def extra_specs() -> dict[str, dict[str, Any]]:
     from vlib.spec import make_loop
 
-    return {"router_multi": make_loop("router_multi", 1, None), "side_target": make_loop("side_target", 1, None)}
+    from vlib.spec import ok, stage
+
+    return {"router_multi": make_loop("router_multi", 1, None), "side_target": make_loop("side_target", 1, None),
+            # a stage that jumps back to itself and has an after-stage declared with the workflow
+            "selfloop_after": {"name": "selfloop_after", "stages": [stage("p", [], [{"b": "jump", "to": "p", "j": 1}], syn={"before": [], "after": ["ok"], "parallel": False, "pre": True}),
+                                                                     stage("z", ["p"], [ok()])], "loop": {"shape": "self", "j": 1}}}
 
 
 def shard_positions(prop: str, tier: str, seed: int, name: str) -> dict[str, Any]:
@@ -230,7 +235,7 @@ def run(c: Campaign, jobs: int) -> None:
     names = [k for k in core_corpus() if k not in SKIP]
     pos_names = names if not quick else ["diamond", "multitask", "terminal_sibling", "cof", "poll", "transient", "selfloop", "loop3", "fwdjump",
                                           "firstof", "quorum", "orsplit", "skip", "before", "after", "mutex", "built"]
-    pos_names = list(pos_names) + ["router_multi", "side_target"]
+    pos_names = list(pos_names) + ["router_multi", "side_target", "selfloop_after"]
     args = [(shard_positions, (c.prop, c.tier, c.seed, n_)) for n_ in pos_names]
     n = 1200 if quick else 40000
     shards = max(1, jobs)
